@@ -22,6 +22,7 @@ noncomputable scoped instance instTrigReal : Trig ℝ where
   cos := Real.cos
   atan2 := fun y x => Complex.arg ⟨x, y⟩
   acos := Real.arccos
+  tan := Real.tan
   pi := Real.pi
 
 @[simp] theorem add_eq (a b : ℝ) : @HAdd.hAdd ℝ ℝ ℝ (@instHAdd ℝ instScalarReal.toAdd) a b = a + b := rfl
@@ -41,6 +42,7 @@ noncomputable scoped instance instTrigReal : Trig ℝ where
   simp
 @[simp] theorem sin_eq (a : ℝ) : Trig.sin a = Real.sin a := rfl
 @[simp] theorem cos_eq (a : ℝ) : Trig.cos a = Real.cos a := rfl
+@[simp] theorem tan_eq (a : ℝ) : Trig.tan a = Real.tan a := rfl
 @[simp] theorem pi_eq : (Trig.pi : ℝ) = Real.pi := rfl
 @[simp] theorem acos_eq (a : ℝ) : Trig.acos a = Real.arccos a := rfl
 @[simp] theorem atan2_eq (y x : ℝ) : Trig.atan2 y x = Complex.arg ⟨x, y⟩ := rfl
